@@ -32,10 +32,11 @@
      C20_gen_run             the same for whole runs (any number of iterations), by
                              induction: every execution of the generated loop under
                              such a clock is [Model.run] of an admissible script
-     C20_gen_alternate, C20_gen_cooldown
-                             two of the statements of Property.v transported to the
-                             generated loop (the callbacks it emits; the readings it
-                             is given)
+     C20_gen_alternate, C20_gen_stable_before_fire, C20_gen_cooldown
+     (= C20_gen_cooldown_silent), C20_gen_flap_never_fires
+                             the four clauses of the property (statements of
+                             Property.v) transported to the generated loop (the
+                             callbacks it emits; the readings it is given)
    So the waits of the model ([wait_until], the [wait_from t cC] shift after
    OnChangeToFalse) are derived from the source: whether, when and how long the
    code waits is in the generated log; the only thing said by hand about a wait
@@ -396,12 +397,103 @@ Proof.
 Qed.
 Print Assumptions C20_gen_cooldown.
 
+(* the same restated under the name of the statement of Property.v *)
+Theorem C20_gen_cooldown_silent : forall name config clk logger t0 pre r post,
+  let w0 := Gen.NewStateChangeWatcher name config clk logger in
+  let rs := pre ++ r :: post in
+  0 <= t0 -> settings_ok (repr_cfg config) -> gen_clock_ok w0 t0 rs ->
+  nth (length pre) (gen_run w0 rs) [] = [ev_false] ->
+  Forall (fun r' => r_t r + Z.max (Gen.Config_CooldownPeriod config) 0 <= r_t r') post.
+Proof. exact C20_gen_cooldown. Qed.
+Print Assumptions C20_gen_cooldown_silent.
+
+(* events of the model <-> readings of the generated loop: the two projections
+   the statement below speaks about (observation, instant after the predicate)
+   at once *)
+Definition ev_key (e : ev) : bool * Z := (e_obs e, e_at e).
+Definition rd_key (r : reading) : bool * Z := (r_obs r, r_t r).
+
+Lemma map_pair_eq {A B} (f : A -> bool) (g : A -> Z) (f' : B -> bool) (g' : B -> Z) :
+  forall (l : list A) (l' : list B),
+  map f l = map f' l' -> map g l = map g' l' ->
+  map (fun x => (f x, g x)) l = map (fun y => (f' y, g' y)) l'.
+Proof.
+  induction l as [|a l IH]; intros [|b l'] H1 H2; try discriminate; [reflexivity|].
+  cbn [map] in *. injection H1 as E1 H1. injection H2 as E2 H2.
+  rewrite E1, E2, (IH l' H1 H2). reflexivity.
+Qed.
+
+Lemma keys_forall_obs b : forall (tr : list ev) (rs : list reading),
+  map rd_key rs = map ev_key tr ->
+  Forall (fun x => e_obs x = b) tr -> Forall (fun x => r_obs x = b) rs.
+Proof.
+  induction tr as [|e tr IH]; intros [|r rs] H F; try discriminate; [constructor|].
+  cbn [map] in H. injection H as Ho _ H. inversion F as [|? ? Fe Ft]; subst.
+  constructor; [congruence|exact (IH rs H Ft)].
+Qed.
+
+(* an iteration of the generated loop that calls a callback calls exactly the one
+   of its observation, and that observation was made by at least max(N,2)
+   consecutive iterations (this one included) the first of which read the clock
+   (after its predicate) at least the stable period before this one did — for
+   every admissible clock.  [f :: rr] = the earlier iterations of that stretch *)
+Theorem C20_gen_stable_before_fire : forall name config clk logger t0 pre r post,
+  let w0 := Gen.NewStateChangeWatcher name config clk logger in
+  let rs := pre ++ r :: post in
+  0 <= t0 -> settings_ok (repr_cfg config) -> gen_clock_ok w0 t0 rs ->
+  nth (length pre) (gen_run w0 rs) [] <> [] ->
+  nth (length pre) (gen_run w0 rs) [] = [token_of (r_obs r)] /\
+  exists pre1 f rr,
+    pre = pre1 ++ f :: rr /\
+    Forall (fun x => r_obs x = r_obs r) (f :: rr) /\
+    Z.max (Gen.Config_ConsecutiveN config) 2 <= Z.of_nat (length (f :: rr)) + 1 /\
+    Gen.Config_MinStablePeriod config <= r_t r - r_t f.
+Proof.
+  intros name config clk logger t0 pre r post w0 rs Ht0 HP Hok Hnth.
+  destruct (C20_gen_init name config clk logger) as [Hinit Hcfg]. fold w0 in Hinit, Hcfg.
+  pose proof (C20_gen_run rs w0 t0) as H. cbv zeta in H. rewrite Hcfg, Hinit in H.
+  destruct (H Ht0 HP Hok) as (_ & Hobs & Hrun & Hat). clear H.
+  set (c := repr_cfg config) in *. set (script := script_of w0 t0 rs) in *.
+  rewrite <- (run_obs c script init t0) in Hobs.
+  pose proof (map_pair_eq e_obs e_at r_obs r_t _ _ Hobs Hat) as Hk.
+  fold ev_key rd_key in Hk. (* map ev_key tr = map rd_key rs *)
+  unfold rs in Hk. rewrite map_app in Hk. cbn [map] in Hk.
+  destruct (map_split_at _ _ _ _ _ Hk) as (pre' & e & post' & Htr & Epre & Ee & Epost).
+  assert (Hlen : length pre' = length pre).
+  { rewrite <- (map_length ev_key pre'), Epre, map_length. reflexivity. }
+  unfold ev_key, rd_key in Ee. injection Ee as Eo Et.
+  rewrite Hrun, Htr, map_app in Hnth |- *. cbn [map] in Hnth |- *.
+  rewrite app_nth2 in Hnth |- * by (rewrite map_length; lia).
+  rewrite map_length, Hlen, Nat.sub_diag in Hnth |- *. cbn [nth] in Hnth |- *.
+  unfold callbacks_of in Hnth |- *.
+  destruct (e_fire e) eqn:F; [|congruence].
+  split; [unfold token_of; rewrite Eo; reflexivity|].
+  pose proof (stable_before_all c script init t0 [] Inv_init pre' e post' Htr F) as SB.
+  cbn [app] in SB. destruct SB as (pre1' & rr' & f' & Hpre & Hall & HN & HPer).
+  rewrite Hpre, map_app in Epre. cbn [map] in Epre. symmetry in Epre.
+  destruct (map_split_at _ _ _ _ _ Epre) as (pre1 & f & rr & Hp & E1 & Ef & Err).
+  exists pre1, f, rr. split; [exact Hp|].
+  assert (Ek : map rd_key (f :: rr) = map ev_key (f' :: rr')).
+  { cbn [map]. rewrite Ef, Err. reflexivity. }
+  split; [|split].
+  - rewrite <- Eo. exact (keys_forall_obs (e_obs e) _ _ Ek Hall).
+  - change (Gen.Config_ConsecutiveN config) with (cN c).
+    replace (length (f :: rr)) with (length (f' :: rr')); [exact HN|].
+    rewrite <- (map_length ev_key (f' :: rr')), <- Ek, map_length. reflexivity.
+  - change (Gen.Config_MinStablePeriod config) with (cP c).
+    unfold rd_key, ev_key in Ef. injection Ef as _ Eft.
+    rewrite <- Et, Eft. exact HPer.
+Qed.
+Print Assumptions C20_gen_stable_before_fire.
+
 (* ---------------------------------------------------------------- non-vacuity *)
 
 (* an admissible clock on which the generated loop, started from the generated
    constructor, calls both callbacks (the run of C20_fires_somewhere: every
    iteration but the first waits 5 for the interval, the third sleeps the
-   cool-down of 7 from 110 to 117) *)
+   cool-down of 7 from 110 to 117).  Its last clause is the hypothesis of
+   C20_gen_cooldown and (a fortiori, <> []) of C20_gen_stable_before_fire for
+   pre = the first two readings *)
 Definition ex_rs : list reading :=
   [Rd false 100 100 100 100 100; Rd false 100 100 105 105 105; Rd false 105 105 110 110 117;
    Rd true 117 117 122 122 122; Rd true 122 122 127 127 127; Rd true 127 127 132 132 132].
